@@ -113,15 +113,19 @@ class CovergroupModel(FieldCompositeModel):
         print("get_inst_coverage: %s" % self.coverage_calc_valid)
         if not self.coverage_calc_valid:
             self.coverage = 0.0
+            # Average the items' coverage according to their weights
+            div = 0
             for cp in self.coverpoint_l:
-                self.coverage += cp.get_coverage()
+                self.coverage += cp.get_coverage() * cp.options.weight
+                div += cp.options.weight
             for cp in self.cross_l:
-                self.coverage += cp.get_coverage()
+                self.coverage += cp.get_coverage() * cp.options.weight
+                div += cp.options.weight
             
             if (len(self.coverpoint_l)+len(self.cross_l)) == 0:
                 self.coverage = 100.0 # vacuously covered
-            else:
-                self.coverage /= (len(self.coverpoint_l) + len(self.cross_l))
+            elif div > 0:
+                self.coverage /= div
                 self.coverage = round(self.coverage, 4)
             self.coverage_calc_valid = True
             
